@@ -8,6 +8,11 @@ SPEC_PROPS = {
 }
 
 
+# rules of the trace specifications that describe documented behaviour no listed property states (the ticker's
+# timing and seriality): a failure is reported as a NONCONFORMANCE line (informational), never as a violation
+BEYOND_PROPERTIES = {"TicksOneAtATime", "TickerOneGoroutine", "TickNotBeforeDelay", "TickerRanAndEnded"}
+
+
 def record(ctx, name, test="TestVerifSys", rounds=None, tags="verif", env=None, timeout=900):
     t = os.path.join(ctx.scratch, "%s.ndjson" % name)
     e = {"VERIF_TRACE": t, "VERIF_ROUNDS": rounds if rounds is not None else (4 if ctx.thorough else 1),
@@ -40,6 +45,10 @@ def validate(ctx, trace, specs, what):
                     continue
                 seen.add(v["inv"])
                 kept = keep_life(ctx, trace, v["at"], "%s.%s" % (spec, v["inv"]))
+                if v["inv"] in BEYOND_PROPERTIES:
+                    ctx.nonconf.append({"kind": "nonconformance", "sig": "%s/%s" % (spec, v["inv"]), "count": 1, "path": [kept],
+                                        "detail": "%s: rule %s (documented behaviour outside the listed properties) fails at event %d of the recorded execution (%s): %s" % (spec, v["inv"], v["at"], what, v["info"])})
+                    continue
                 ctx.violations.append({"kind": "violation", "sig": "%s/%s" % (spec, v["inv"]), "count": 1, "path": [kept],
                                        "detail": "%s: check %s fails at event %d of the recorded execution (%s): %s" % (spec, v["inv"], v["at"], what, v["info"])})
         elif not r["accepted"]:
